@@ -763,6 +763,16 @@ class Fxp():
             if all(isinstance(v, int) for v in _val_obj.ravel()):
                 val = _val_obj
 
+        if val.dtype == object:
+            # numpy integers and floats of up to 64 bits held in an object array become python numbers
+            # (they would be scaled, biased, sized and read back in their own narrow type)
+            _flat = [v.item() if isinstance(v, (np.integer, np.floating)) and v.dtype.itemsize <= 8 else v for v in val.flatten()]
+            _items = np.empty(len(_flat), dtype=object)
+            _items[:] = _flat
+            val = _items.reshape(val.shape)
+            if isinstance(vdtype, type) and issubclass(vdtype, (np.integer, np.floating)) and np.dtype(vdtype).itemsize <= 8:
+                vdtype = int if issubclass(vdtype, np.integer) else float
+
         if vdtype is None:
             vdtype = val.dtype
             if vdtype.kind in 'iuf' and vdtype.itemsize < 8:
@@ -894,12 +904,6 @@ class Fxp():
                 _int_overflow = max(abs(int(np.max(val))), abs(int(np.min(val)))) * max(conv_factor, 1) >= 2**(_n_word_max_ - 1) or conv_factor >= 2**(_n_word_max_ - 1)
             else:
                 _int_overflow = False
-            if val.dtype == object:
-                # numpy integers and floats of up to 64 bits held in an object array become python numbers (they would be scaled in their own narrow type)
-                _flat = [v.item() if isinstance(v, (np.integer, np.floating)) and v.dtype.itemsize <= 8 else v for v in val.flatten()]
-                _items = np.empty(len(_flat), dtype=object)
-                _items[:] = _flat
-                val = _items.reshape(val.shape)
             if np.max(val) >= 2**_n_word_max_ or np.min(val) < -2**_n_word_max_ or self.n_word >= _n_word_max_ or _int_overflow:
                 val_dtype = object
                 val = val.astype(object)
